@@ -384,3 +384,20 @@ func H_C01_shared_nodes() {
 	verifAssert(err == nil, "C02.shared.thresholds-met-no-error")
 	verifReach("C01.shared.end")
 }
+
+// two overlapping Sends of one type share no mutable dispatch state: whatever graph.process and doProcess write while
+// fanning an event out is private to that Send (lockset analysis over the two calls; replayed under -race)
+func H_C01_two_sends() {
+	b, _ := NewBroker()
+	b.RegisterNode("f", &rNode{typ: NodeTypeFormatter})
+	b.RegisterNode("s", &rNode{typ: NodeTypeSink})
+	b.RegisterNode("s2", &rNode{typ: NodeTypeSink})
+	b.RegisterPipeline(Pipeline{PipelineID: "p", EventType: "t", NodeIDs: []NodeID{"f", "s"}})
+	b.RegisterPipeline(Pipeline{PipelineID: "q", EventType: "t", NodeIDs: []NodeID{"f", "s2"}})
+	if nondetBool() {
+		b.RegisterPipeline(Pipeline{PipelineID: "r", EventType: "t", NodeIDs: []NodeID{"f", "s"}})
+	}
+	ctx := &vCtx{}
+	verifPar(func() { b.Send(ctx, "t", "one") }, func() { b.Send(ctx, "t", "two") })
+	verifReach("C01.two-sends.end")
+}
